@@ -42,7 +42,7 @@ def reservation_vs_render(h1, h2, as_colheader, needs_header, fn, src, pf, ps, s
              rtf_source=None if src == 0 else NS(text="s", as_table=(src == 1)), df=None,
              rtf_body=NS(new_page=False, pageby_row="column", page_by=None, subline_by=["s"] if subline else None,
                          as_colheader=as_colheader, col_rel_width=None))
-    reserved = RTFDocumentService.calculate_additional_rows_per_page(NS(), doc)
+    reserved = RTFDocumentService.calculate_additional_rows_per_page(NS.of(RTFDocumentService), doc)
     r = token_renderer()
     r._render_body = lambda d, p: [("ROW", 0, 0)]
     page = NS(is_first_page=first, is_last_page=last, subline_header={"group_values": {"s": "G"}} if subline else None,
